@@ -274,21 +274,78 @@ impl Coll for Locals {
     fn issued(&self) -> usize { self.ids.len() }
 }
 
+/// A custom section type of the harness's own: even values are added as this type, odd values as raw sections,
+/// value 2k and 2k+1 under the same section name, so that deletion by name (`remove_raw`) has a typed
+/// section of the same name to leave alone.
+#[derive(Debug)]
+struct WvTyped {
+    name: String,
+    v: u32,
+}
+impl CustomSection for WvTyped {
+    fn name(&self) -> &str {
+        &self.name
+    }
+    fn data(&self, _: &IdsToIndices) -> std::borrow::Cow<[u8]> {
+        vec![self.v as u8].into()
+    }
+}
+
+#[derive(Clone, Copy, PartialEq)]
+enum CustomId {
+    Raw(TypedCustomSectionId<RawCustomSection>),
+    Typed(TypedCustomSectionId<WvTyped>),
+}
+
 struct Customs {
     m: Module,
-    ids: Vec<TypedCustomSectionId<RawCustomSection>>,
+    ids: Vec<CustomId>,
+    vals: Vec<u32>,
+    alive: Vec<bool>,
+}
+fn custom_label(c: &dyn CustomSection) -> String {
+    if let Some(t) = c.as_any().downcast_ref::<WvTyped>() {
+        t.v.to_string()
+    } else if let Some(r) = c.as_any().downcast_ref::<RawCustomSection>() {
+        r.data.first().map(|b| b.to_string()).unwrap_or_default()
+    } else {
+        "?".into()
+    }
 }
 impl Coll for Customs {
     fn add(&mut self, v: u32) -> (usize, bool) {
-        issue!(self, self.m.customs.add(RawCustomSection { name: format!("c{}", v), data: vec![v as u8] }))
+        let name = format!("k{}", v / 2);
+        let id = if v % 2 == 0 { CustomId::Typed(self.m.customs.add(WvTyped { name, v })) } else { CustomId::Raw(self.m.customs.add(RawCustomSection { name, data: vec![v as u8] })) };
+        self.ids.push(id);
+        self.vals.push(v);
+        self.alive.push(true);
+        (self.ids.len() - 1, true)
     }
-    fn del(&mut self, k: usize) { let _ = self.m.customs.delete(self.ids[k]); }
+    fn del(&mut self, k: usize) {
+        match self.ids[k] {
+            CustomId::Typed(id) => {
+                let _ = self.m.customs.delete(id);
+            }
+            CustomId::Raw(id) => {
+                // by name when that designates this very section (the first live raw section of that name)
+                let first = (0..self.ids.len()).find(|i| self.alive[*i] && self.vals[*i] == self.vals[k]);
+                if first == Some(k) {
+                    let _ = self.m.customs.remove_raw(&format!("k{}", self.vals[k] / 2));
+                } else {
+                    let _ = self.m.customs.delete(id);
+                }
+            }
+        }
+        self.alive[k] = false;
+    }
     fn get(&self, k: usize) -> Option<String> {
-        let id = self.ids[k];
-        guarded(|| self.m.customs.get(id).map(|c| c.name[1..].to_string())).ok().flatten()
+        match self.ids[k] {
+            CustomId::Typed(id) => guarded(|| self.m.customs.get(id).map(|c| c.v.to_string())).ok().flatten(),
+            CustomId::Raw(id) => guarded(|| self.m.customs.get(id).map(|c| c.data[0].to_string())).ok().flatten(),
+        }
     }
-    fn iter(&self) -> Vec<String> { self.m.customs.iter().map(|(_, c)| c.name()[1..].to_string()).collect() }
-    fn iter_mut_vals(&mut self) -> Option<Vec<String>> { Some(self.m.customs.iter_mut().map(|(_, c)| c.name()[1..].to_string()).collect()) }
+    fn iter(&self) -> Vec<String> { self.m.customs.iter().map(|(_, c)| custom_label(c)).collect() }
+    fn iter_mut_vals(&mut self) -> Option<Vec<String>> { Some(self.m.customs.iter_mut().map(|(_, c)| custom_label(&*c)).collect()) }
     fn issued(&self) -> usize { self.ids.len() }
 }
 
@@ -303,7 +360,7 @@ fn make(coll: &str) -> Option<Box<dyn Coll>> {
         "imports" => Box::new(Imports { m: Module::default(), ids: vec![] }),
         "funcs" => Box::new(Funcs { m: Module::default(), ids: vec![] }),
         "locals" => Box::new(Locals { m: Module::default(), ids: vec![] }),
-        "customs" => Box::new(Customs { m: Module::default(), ids: vec![] }),
+        "customs" => Box::new(Customs { m: Module::default(), ids: vec![], vals: vec![], alive: vec![] }),
         "exports" => {
             let mut m = Module::default();
             let mut b = FunctionBuilder::new(&mut m.types, &[], &[]);
